@@ -367,6 +367,11 @@ class Interp(object):
     self.unsupported("< between %r and %r" % (a, b), node)
 
   def contains(self, c, x, node=None):
+    if isinstance(c, SOpt):
+      if self.spec:        # total reading in a spec: None has no members
+        return z3.And(z3.Not(c.isnone), self._bt(self.contains(c.val, x, node)))
+      c = self.narrow(c)
+      if c is None: self.raise_(TypeError, "argument of type 'NoneType' is not iterable", node=node)
     if isinstance(c, (SSet, SMap)) and isinstance(x, SOpt) and not isinstance(c.key, V.Opt):
       return z3.And(z3.Not(x.isnone), c.has(x.val))     # None is not a member of a set of T
     if isinstance(c, SSet): return c.has(x)
@@ -483,7 +488,13 @@ class Interp(object):
 
   def ev_Set(self, node, fr):
     vals = [self.ev(e, fr) for e in node.elts]
-    if any(is_symbolic(v) for v in vals): self.unsupported("set display of symbolic values", node)
+    if any(is_symbolic(v) for v in vals):
+      shapes = [shape_of(self.narrow(v)) for v in vals]
+      if shapes[0] is None or len(shapes[0].sorts()) != 1 or any(repr(s) != repr(shapes[0]) for s in shapes):
+        self.unsupported("set display of symbolic values", node)
+      out = V.SetOf(shapes[0]).build(V.SetOf(shapes[0]).leaves(set()))
+      for v in vals: out = out.add(self.narrow(v))
+      return out
     return set(vals)
 
   def ev_Dict(self, node, fr):
@@ -612,6 +623,12 @@ class Interp(object):
     if isinstance(a, (bool, SBool)) and isinstance(b, (bool, SBool)):
       return self.eq(a, b)
     if not is_symbolic(a) and not is_symbolic(b): return a is b
+    for x, y in ((a, b), (b, a)):
+      # a (symbolic) set / dict / list is never the same object as a value of another kind, e.g.
+      # a sentinel `object()`
+      if isinstance(x, (SSet, SMap, SSeq)) and \
+          not isinstance(y, (Sym, set, frozenset, dict, list, tuple, ObjVal)):
+        return False
     self.unsupported("`is` on symbolic values")
 
   # -- attribute / subscript ---------------------------------------------------------------
@@ -785,10 +802,11 @@ class Interp(object):
         kwargs.update(v)
       else:
         kwargs[k.arg] = self.ev(k.value, fr)
+    self._call_site = (fr, node, list(args), dict(kwargs))
     if isinstance(fn, MethodRef):
       new_base, result = self.models.call_method(self, fn.base, fn.name, args, kwargs, node)
       if new_base is not fn.base and new_base is not None:
-        self.assign_to(node.func.value, new_base, fr)
+        self.assign_to(node.func.value, new_base, fr, mutation=True)
       return result
     return self.call(fn, args, kwargs, node)
 
@@ -847,6 +865,7 @@ class Interp(object):
     try:
       fr = Frame(fv, self)
       fr.bind_args(fv.node.args, args, kwargs, self, node)
+      self.bind_param_aliases(fr, node)
       if isinstance(fv.node, ast.Lambda):
         return self.ev(fv.node.body, fr)
       gen = _is_generator(fv.node)
@@ -861,6 +880,30 @@ class Interp(object):
       return None
     finally:
       self.depth -= 1
+
+  def bind_param_aliases(self, fr, node):
+    """A mutable container passed as an argument is the same object in caller and callee: a
+    parameter bound to the value of an lvalue expression of the call site aliases it."""
+    site = getattr(self, "_call_site", None)
+    self._call_site = None
+    if site is None or site[1] is not node or not isinstance(node, ast.Call): return
+    cfr, _, avals, kvals = site
+    pairs = []
+    k = 0
+    for a in node.args:
+      if isinstance(a, ast.Starred): return
+      if k < len(avals): pairs.append((a, avals[k]))
+      k += 1
+    for kw in node.keywords:
+      if kw.arg is not None and kw.arg in kvals: pairs.append((kw.value, kvals[kw.arg]))
+    for a, val in pairs:
+      if not isinstance(val, (SSet, SSeq, SMap)): continue
+      if not isinstance(a, (ast.Name, ast.Attribute, ast.Subscript)): continue
+      if not all(isinstance(n, (ast.Name, ast.Attribute, ast.Subscript, ast.Constant, ast.Load))
+                 for n in ast.walk(a)): continue
+      for pname, pval in fr.env.items():
+        if pval is val:
+          fr.aliases[pname] = ("lvalue", cfr, a)
 
   def call_by_contract(self, c, fv, args, kwargs, node):
     """Modular call: assert requires, assume ensures of the callee's contract."""
@@ -1071,10 +1114,48 @@ class Interp(object):
   def st_Return(self, node, fr):
     raise _Return(self.ev(node.value, fr) if node.value is not None else None)
 
+  def propagate(self, al, v):
+    if al[0] == "lvalue":
+      _, cfr, cast = al
+      self.assign_to(cast, v, cfr, mutation=True)
+    else:
+      _, cfr, base_ast, key = al
+      base = self.ev(base_ast, cfr)
+      if isinstance(base, SMap):
+        if self.ctx.decide(self._bt(self.contains(base, key))):
+          self.assign_to(base_ast, base.store(key, v), cfr, mutation=True)
+      elif isinstance(base, dict) and not is_symbolic(key):
+        if key in base: base[key] = v
+      else:
+        self.unsupported("write-back into %r" % (base,))
+
+  def entry_alias(self, e, fr):
+    """(base lvalue AST, key value) when expression e reads one entry of a dict: d[k], d.get(k..),
+    d.setdefault(k..) with d a name / attribute chain."""
+    simple = lambda a: all(isinstance(n, (ast.Name, ast.Attribute, ast.Load)) for n in ast.walk(a))
+    if isinstance(e, ast.Subscript) and not isinstance(e.slice, ast.Slice) and simple(e.value):
+      return e.value, e.slice
+    if isinstance(e, ast.Call) and isinstance(e.func, ast.Attribute) and e.args and \
+        e.func.attr in ("get", "setdefault") and simple(e.func.value):
+      return e.func.value, e.args[0]
+    return None
+
   def st_Assign(self, node, fr):
     v = self.ev(node.value, fr)
     for t in node.targets:
       self.assign_to(t, v, fr)
+    if len(node.targets) == 1 and isinstance(node.targets[0], ast.Name) and \
+        isinstance(v, (SSet, SSeq, SMap)):
+      ea = self.entry_alias(node.value, fr)
+      if ea is not None and all(isinstance(n, (ast.Name, ast.Attribute, ast.Constant, ast.Load))
+                                for n in ast.walk(ea[1])):
+        base = self.ev(ea[0], fr)
+        if isinstance(base, (SMap, dict)):
+          key = self.ev(ea[1], fr)
+          if isinstance(base, SMap) and isinstance(key, SOpt) and not isinstance(base.key, V.Opt):
+            key = self.narrow(key)
+          if key is not None:
+            fr.aliases[node.targets[0].id] = ("entry", fr, ea[0], key)
 
   def st_AnnAssign(self, node, fr):
     if node.value is not None:
@@ -1087,11 +1168,24 @@ class Interp(object):
       if new is None: new = cur
     else:
       new = self.binop(node.op, cur, self.ev(node.value, fr), node)
-    self.assign_to(node.target, new, fr)
+      self.assign_to(node.target, new, fr)
+      return
+    self.assign_to(node.target, new, fr, mutation=True)
 
-  def assign_to(self, t, v, fr):
+  def assign_to(self, t, v, fr, mutation=False):
+    """Binds target t to v.  mutation=True marks the write-back of an in-place change of the object
+    that t denotes (as opposed to a rebinding): it is propagated to everything recorded as an alias
+    of that object - the caller's argument expression for a parameter, the dict entry a local was
+    read from - which is how the reference semantics of Python's mutable containers is kept on
+    top of immutable terms."""
     if isinstance(t, ast.Name):
+      if mutation and not self.in_ghost: self.check_loop_frame(t.id, frame=fr, name=t.id)
       fr.store(t.id, v)
+      if mutation:
+        al = fr.aliases.get(t.id)
+        if al is not None: self.propagate(al, v)
+      else:
+        fr.aliases.pop(t.id, None)
     elif isinstance(t, (ast.Tuple, ast.List)):
       if isinstance(v, Sym):
         if isinstance(v, SSeq):
@@ -1106,7 +1200,9 @@ class Interp(object):
       for tt, vv in zip(t.elts, v): self.assign_to(tt, vv, fr)
     elif isinstance(t, ast.Attribute):
       base = self.ev(t.value, fr)
-      if isinstance(base, ObjVal): base.fields[t.attr] = v
+      if isinstance(base, ObjVal):
+        if not self.in_ghost: self.check_loop_frame("%s.%s" % (base.cls_name, t.attr), obj=base)
+        base.fields[t.attr] = v
       elif is_symbolic(base): self.unsupported("attribute store on symbolic", t)
       else: setattr(base, t.attr, v)
     elif isinstance(t, ast.Subscript):
@@ -1118,12 +1214,17 @@ class Interp(object):
         if self.ctx.decide(z3.And(i >= 0, i < n)): new = base.store(i, v)
         elif self.ctx.decide(z3.And(i < 0, i >= -n)): new = base.store(i + n, v)
         else: self.raise_(IndexError, "list assignment index out of range", node=t)
-        self.assign_to(t.value, new, fr)
+        self.assign_to(t.value, new, fr, mutation=True)
       elif isinstance(base, SMap):
         if isinstance(idx, SOpt) and not isinstance(base.key, V.Opt):
           idx = self.narrow(idx)
           if idx is None: self.unsupported("None as key of a dict keyed by %r" % (base.key,), t)
-        self.assign_to(t.value, base.store(idx, v), fr)
+        if not mutation:
+          # d[k] = other object: locals read from an entry of d no longer denote what d holds
+          dump = ast.dump(t.value)
+          for n, al in list(fr.aliases.items()):
+            if al[0] == "entry" and ast.dump(al[2]) == dump: del fr.aliases[n]
+        self.assign_to(t.value, base.store(idx, v), fr, mutation=True)
       elif isinstance(base, (list, dict)) and not is_symbolic(idx):
         try: base[idx] = v
         except (IndexError, TypeError) as e: self.raise_(type(e), *e.args, node=t)
@@ -1144,7 +1245,7 @@ class Interp(object):
         if k is None: return               # None is not a key: the mutated object was the default
       if isinstance(base, SMap):
         if t.func.attr == "setdefault" or self.ctx.decide(self._bt(self.contains(base, k))):
-          self.assign_to(t.func.value, base.store(k, v), fr)
+          self.assign_to(t.func.value, base.store(k, v), fr, mutation=True)
       elif isinstance(base, dict) and not is_symbolic(k):
         if k in base: base[k] = v
       else:
@@ -1213,7 +1314,7 @@ class Interp(object):
         base = self.ev(t.value, fr); idx = self.ev(t.slice, fr)
         if isinstance(base, SMap):
           if not self.ctx.decide(base.has(idx)): self.raise_(KeyError, idx, node=t)
-          self.assign_to(t.value, base.remove(idx), fr)
+          self.assign_to(t.value, base.remove(idx), fr, mutation=True)
         elif isinstance(base, (dict, list)) and not is_symbolic(idx):
           try: del base[idx]
           except (KeyError, IndexError) as e: self.raise_(type(e), *e.args, node=t)
@@ -1262,6 +1363,32 @@ class Interp(object):
       return
     self.sym_loop(node, fr, None)
 
+  def _reachable_objs(self, values):
+    seen, out, stack = set(), set(), list(values)
+    while stack:
+      v = stack.pop()
+      if id(v) in seen: continue
+      seen.add(id(v))
+      if isinstance(v, ObjVal):
+        out.add(id(v)); stack.extend(v.fields.values())
+      elif isinstance(v, (list, tuple)): stack.extend(v)
+      elif isinstance(v, dict): stack.extend(v.values())
+      elif isinstance(v, SOpt): stack.append(v.val)
+    return out
+
+  def check_loop_frame(self, what, obj=None, frame=None, name=None):
+    """Soundness guard for loops with invariants: the arbitrary iteration may only change state the
+    loop havocked (names assigned in the body, declared locals).  A change reaching anything else
+    - a modelled object mutated inside a callee, a caller's container changed through an alias -
+    would silently survive the havoc, so it is refused instead."""
+    for g in getattr(self, "_loop_guards", ()):
+      if obj is not None and id(obj) in g["pre"] and id(obj) not in g["hav"]:
+        self.unsupported("loop %s: the body mutates %s, which the loop does not havoc (declare the "
+                         "object in LoopSpec.locals)" % (g["name"], what))
+      if frame is not None and frame is g["frame"] and name not in g["names"] and name in g["pre_names"]:
+        self.unsupported("loop %s: the body mutates `%s` through an alias, which the loop does not "
+                         "havoc (declare it in LoopSpec.locals)" % (g["name"], name))
+
   def loop_spec(self, node, fr):
     if self.contract is None or fr.func is None: return None
     return self.contract.loop_spec(fr.func, node)
@@ -1293,6 +1420,8 @@ class Interp(object):
       ctx.oblige("%s.%s" % (lname, iname), self._bt(g), "inv-init", node.lineno)
     # 2. fork: arbitrary iteration, or exit
     choice = ctx.fork(2)
+    pre_objs = self._reachable_objs(fr.flat_env().values())
+    pre_names = set(fr.env)
     modified = _assigned_names(node.body) | set(ghost_vars)
     if isinstance(node, ast.For): modified |= _target_names(node.target)
     if it is not None and idx_name: modified.discard(idx_name)
@@ -1333,12 +1462,19 @@ class Interp(object):
         ctx.oblige("%s.decreases_bounded" % lname, variant0 >= 0, "termination", node.lineno)
       if spec.ghost_pre:
         self.exec_ghost(spec.ghost_pre, fr)
+      if not hasattr(self, "_loop_guards"): self._loop_guards = []
+      self._loop_guards.append({
+        "name": lname, "frame": fr, "names": set(modified) | ({idx_name} if idx_name else set()),
+        "pre": pre_objs, "pre_names": pre_names,
+        "hav": self._reachable_objs([fr.env[n] for n in modified if n in fr.env])})
       try:
         self.exec_block(node.body, fr)
       except _Break:
         return                       # continues after the loop (no else clause)
       except _Continue:
         pass
+      finally:
+        self._loop_guards.pop()
       if spec.ghost_step:
         self.exec_ghost(spec.ghost_step, fr)
       if it is not None and idx_name: fr.store(idx_name, SInt(k + 1))
@@ -1425,6 +1561,7 @@ class Frame(object):
   def __init__(self, func, interp, parent=None):
     self.func, self.parent = func, parent
     self.env = {}
+    self.aliases = {}        # local name -> what else denotes the same mutable object
     self.yielded = None
     self.current_exc = None
     self.spec_names = False
